@@ -125,7 +125,12 @@ static bool IsLess(const Char_T *left, const Char_T *right, SizeT left_length, S
         ++offset;
     }
 
-    return (orEqual & (left_length == right_length));
+    if (left_length != right_length) {
+        // One string is a proper prefix of the other: the shorter one sorts first.
+        return (left_length < right_length);
+    }
+
+    return orEqual;
 }
 
 template <typename Char_T>
@@ -145,7 +150,12 @@ static bool IsGreater(const Char_T *left, const Char_T *right, SizeT left_length
         ++offset;
     }
 
-    return (orEqual & (left_length == right_length));
+    if (left_length != right_length) {
+        // One string is a proper prefix of the other: the longer one sorts last.
+        return (left_length > right_length);
+    }
+
+    return orEqual;
 }
 
 template <typename Char_T>
